@@ -287,6 +287,72 @@ func (m *monState) checkSaveStep(si *StepInfo, pre, post *Snap, evs []Event) {
 	}
 }
 
+// C12 r6c: an explicit SaveToStore call that ran alone. "After every save the set of
+// jobs reported by the API equals the set in the store" must also hold for a call
+// that decides to write nothing (a changed version may skip "unchanged" saves): the
+// comparison is made when the call returns, if no other save overlapped it and no
+// job was accepted while it ran (then the set it saw is the set reported now).
+type saveOpInfo struct {
+	step              int
+	handed, completed int
+	names             map[string]bool
+}
+
+func (m *monState) onSaveOpStart(client int) {
+	run := m.run
+	w := run.cur
+	if w == nil || w.isDead() || w.mem == nil || run.pre == nil {
+		return
+	}
+	h, c := w.mem.counts()
+	info := &saveOpInfo{step: run.step, handed: h, completed: c, names: map[string]bool{}}
+	for n := range run.pre.Jobs {
+		info.names[n] = true
+	}
+	if m.saveOps == nil {
+		m.saveOps = map[int]*saveOpInfo{}
+	}
+	m.saveOps[client] = info
+}
+
+func (m *monState) checkSaveReturn(si *StepInfo, res *OpResult, post *Snap) {
+	run := m.run
+	w := run.cur
+	info := m.saveOps[res.Client]
+	delete(m.saveOps, res.Client)
+	if info == nil || w == nil || w.isDead() || w.mem == nil || w.shutdownBegun > 0 {
+		return
+	}
+	h, c := w.mem.counts()
+	if info.handed != info.completed || h != c || h-info.handed > 1 {
+		return // another save was in flight, or a save failed
+	}
+	for n := range post.Jobs {
+		if !info.names[n] {
+			return // a job was accepted while the call ran
+		}
+	}
+	stored := map[string]bool{}
+	if pd := w.mem.last(); pd != nil {
+		for _, n := range sortedPersisted(pd) {
+			stored[n] = true
+		}
+	}
+	for _, n := range post.sortedNames() {
+		if !stored[n] {
+			run.violate("C12", "r6c", "step %d: SaveToStore (called at step %d, no other save in between) has returned, job %s is reported by the API but is not in the store", si.N, info.step, n)
+			return
+		}
+	}
+	for n := range stored {
+		if post.Jobs[n] == nil {
+			run.violate("C12", "r6c", "step %d: SaveToStore (called at step %d, no other save in between) has returned, job %s is in the store but not reported by the API", si.N, info.step, n)
+			return
+		}
+	}
+	run.probe("explicit_save_alone_checked")
+}
+
 // listLogs returns path (relative to the log directory) -> content hash.
 func (run *Run) listLogs(w *World) map[string]string {
 	res := map[string]string{}
